@@ -138,6 +138,9 @@ func (s scope) clone() scope {
 
 // Gen generates templates over a binding environment.
 type Gen struct {
+	ReadOnly    bool     // no assign / capture / break / include / custom tags / error constructs: the nodes only read
+	loopVars    []string // names of the enclosing loops' variables, innermost last
+	mapPaths    []string // dotted paths of maps nested in the bindings ("m.k", "m.k.j")
 	r           *Rng
 	feat        map[string]bool
 	incArgs     []string // argument expressions for include tags; empty = no include
@@ -187,8 +190,21 @@ func pickFocus(r *Rng) []filt {
 	for i, n := 0, r.Range(1, 3); i < n; i++ {
 		f = append(f, pick(r, all))
 	}
+	if r.Chance(0.08) {
+		for _, x := range strFilters {
+			if x.name == "date" {
+				f = append(f, x)
+			}
+		}
+	}
 	return f
 }
+
+// dateWords: strings in the date layouts the library recognises (with and without a
+// zone, with a literal Z, with a numeric offset, with a zone abbreviation).
+var dateWords = []string{"2017-07-09", "March 3, 2021", "2020-02-29 12:00", "02 Jan 2006", "Mon, 02 Jan 2006 15:04:05 -0700",
+	"2017-07-09T10:40:00Z", "2017-07-09T10:40:00+02:00", "20170709T104000Z", "2017-01-09 10:40:00 -0700", "2017-07-09 10:40:00 UTC",
+	"Jan 2 2006", "02 January 2006", "2017-07-09 10:40:00", "Mon Jan  2 15:04:05 2006", "Monday, 02-Jan-06 15:04:05 MST", "2017-01-09 10:40:00 EST"}
 
 func scopeOf(e *Env) scope {
 	var s scope
@@ -289,7 +305,7 @@ var strFilters = []filt{
 		if g.r.Chance(0.3) {
 			return ""
 		}
-		return ": " + quote(pick(g.r, []string{"%Y-%m-%d", "%b %d, %y", "%H:%M", "%a"}))
+		return ": " + quote(pick(g.r, []string{"%Y-%m-%d", "%b %d, %y", "%H:%M", "%a", "%Y-%m-%d %H:%M %z", "%s", "%H %Z"}))
 	}},
 	{"size", noArgs},
 	{"default", func(g *Gen, sc scope) string { return ": " + g.strLit() }},
@@ -602,16 +618,16 @@ func (g *Gen) node(sc *scope, depth int) *TNode {
 		b(deep && g.feat["case"], 1),          // 4 case
 		b(deep, 4),                            // 5 for
 		b(deep && g.feat["tablerow"], 2),      // 6 tablerow
-		b(g.feat["assign"], 2),                // 7 assign
-		b(deep && g.feat["capture"], 1),       // 8 capture
-		b(g.loop > 0 && g.feat["cycle"], 4),   // 9 cycle
-		b(g.loop > 0 && g.feat["breaks"], 1),  // 10 break/continue
-		b(g.feat["comment"], 1),               // 11 comment
-		b(g.feat["raw"], 1),                   // 12 raw
-		b(len(g.incArgs) > 0, 3),              // 13 include
-		b(g.feat["custom"] && !g.NoCustom, 3), // 14 echo / expand / bset: their arguments are evaluated at render time
-		b(deep && g.feat["custom"] && !g.NoCustom, 1), // 15 wrap
-		b(g.feat["errors"], 1),                        // 16 error construct
+		b(g.feat["assign"] && !g.ReadOnly, 2),                // 7 assign
+		b(deep && g.feat["capture"] && !g.ReadOnly, 1),       // 8 capture
+		b(g.loop > 0 && g.feat["cycle"], 4),                  // 9 cycle
+		b(g.loop > 0 && g.feat["breaks"] && !g.ReadOnly, 1),  // 10 break/continue
+		b(g.feat["comment"], 1),                              // 11 comment
+		b(g.feat["raw"], 1),                                  // 12 raw
+		b(len(g.incArgs) > 0 && !g.ReadOnly, 3),              // 13 include
+		b(g.feat["custom"] && !g.NoCustom && !g.ReadOnly, 3), // 14 echo / expand / bset: their arguments are evaluated at render time
+		b(deep && g.feat["custom"] && !g.NoCustom && !g.ReadOnly, 1), // 15 wrap
+		b(g.feat["errors"] && !g.ReadOnly, 1),                        // 16 error construct
 	}
 	switch g.r.weighted(w) {
 	case 0:
@@ -638,13 +654,39 @@ func (g *Gen) node(sc *scope, depth int) *TNode {
 		return n
 	case 4:
 		g.use("tag:case")
-		n := g.trim(&TNode{K: "block", S: "case " + pick(g.r, []string{g.numAtom(*sc), g.strAtom(*sc)})})
-		for i, k := 0, g.r.Range(1, 3); i < k; i++ {
+		subj := pick(g.r, []string{g.numAtom(*sc), g.strAtom(*sc)})
+		if len(g.loopVars) > 0 && g.r.Chance(0.5) {
+			subj = g.loopVars[len(g.loopVars)-1] // takes a different value in every iteration
+		}
+		n := g.trim(&TNode{K: "block", S: "case " + subj})
+		// a quarter of the cases draw their when-values from a pool of three, so that clauses
+		// overlap (a value listed by two clauses: the first one in source order wins)
+		var pool []string
+		if g.r.Chance(0.4) {
+			pool = []string{fmt.Sprint(g.r.Range(1, 3)), fmt.Sprint(g.r.Range(2, 4)), pick(g.r, []string{g.strLit(), fmt.Sprint(g.r.Range(0, 5))})}
+		}
+		for i, k := 0, g.r.Range(1, 5); i < k; i++ {
 			w := pick(g.r, []string{g.intLit(), g.strLit(), g.intLit() + ", " + g.intLit(), g.numAtom(*sc), g.strAtom(*sc), g.strAtom(*sc) + ", " + g.numAtom(*sc)})
+			if pool != nil {
+				w = pick(g.r, pool)
+				if g.r.Chance(0.6) {
+					w += ", " + pick(g.r, pool)
+				}
+			}
 			n.Cl = append(n.Cl, &Clause{S: "when " + w, C: g.Nodes(*sc, depth+1, 2)})
 		}
 		if g.r.Chance(0.5) {
 			n.Cl = append(n.Cl, &Clause{S: "else", C: g.Nodes(*sc, depth+1, 2)})
+		}
+		if pool != nil && g.r.Chance(0.7) {
+			// evaluated for a short run of the pool's values, in one render after the other
+			lo := g.r.Range(1, 3)
+			n.S = "case cv"
+			head := fmt.Sprintf("for cv in (%d..%d)", lo, g.r.Range(lo, 4))
+			if g.r.Chance(0.3) {
+				head += " reversed"
+			}
+			return &TNode{K: "block", S: head, C: []*TNode{n}}
 		}
 		return n
 	case 5, 6:
@@ -671,10 +713,16 @@ func (g *Gen) node(sc *scope, depth int) *TNode {
 			}
 		}
 		inner := sc.clone()
-		inner.anys = append(inner.anys, v, v+"[0]", v+"[1]", v+".name")
+		inner.anys = append(inner.anys, v, v+"[0]", v+"[1]", v+".name", v+".Title")
 		g.loop++
+		g.loopVars = append(g.loopVars, v)
 		n := g.trim(&TNode{K: "block", S: args, C: g.Nodes(inner, depth+1, 4)})
+		g.loopVars = g.loopVars[:len(g.loopVars)-1]
 		g.loop--
+		if strings.Contains(args, "recs") && g.r.Chance(0.6) {
+			// records: read a property of the loop variable (one site, several record types)
+			n.C = append([]*TNode{{K: "obj", S: v + "." + pick(g.r, []string{"name", "Title", "Other", "n"})}}, n.C...)
+		}
 		if name == "for" && g.r.Chance(0.3) {
 			n.Cl = append(n.Cl, &Clause{S: "else", C: g.Nodes(*sc, depth+1, 2)})
 		}
@@ -706,8 +754,19 @@ func (g *Gen) node(sc *scope, depth int) *TNode {
 		g.use("tag:capture")
 		g.nvar++
 		v := fmt.Sprintf("c%d", g.nvar)
+		dotted := false
+		if g.r.Chance(0.06) {
+			// a dotted name: whatever the library makes of it, it must not reach into the
+			// caller's maps
+			dotted = true
+			if len(g.mapPaths) > 0 && g.r.Chance(0.7) {
+				v = pick(g.r, g.mapPaths) + "." + pick(g.r, keyWords)
+			} else {
+				v = pick(g.r, append([]string{"m", "m2"}, sc.maps...)) + "." + pick(g.r, keyWords) + "." + pick(g.r, keyWords)
+			}
+		}
 		n := g.trim(&TNode{K: "block", S: "capture " + v, C: g.Nodes(*sc, depth+1, 3)})
-		if g.loop == 0 {
+		if g.loop == 0 && !dotted {
 			sc.strs = append(sc.strs, v)
 		}
 		return n
@@ -910,6 +969,9 @@ func (g *Gen) Sweep(e *Env, focus []filt, n int) []*TNode {
 			atom = pick(g.r, sc.arrs)
 		default:
 			atom = g.strAtom(sc)
+			if f.name == "date" && g.r.Chance(0.8) {
+				atom = quote(pick(g.r, dateWords)) // one of the layouts the library recognises
+			}
 		}
 		g.hint = g.lenHint(atom)
 		expr := atom + " | " + f.name + f.args(g, sc)
@@ -930,6 +992,22 @@ func (g *Gen) Sweep(e *Env, focus []filt, n int) []*TNode {
 // Template generates one template tree.
 func (g *Gen) Template(e *Env) []*TNode {
 	g.env = e
+	g.mapPaths = nil
+	var walk func(prefix string, v *LV, depth int)
+	walk = func(prefix string, v *LV, depth int) {
+		if v.T != "map" || depth > 3 {
+			return
+		}
+		for i, k := range v.K {
+			if i < len(v.A) && v.A[i].T == "map" && !strings.ContainsAny(k, " .") && k != "" {
+				g.mapPaths = append(g.mapPaths, prefix+"."+k)
+				walk(prefix+"."+k, v.A[i], depth+1)
+			}
+		}
+	}
+	for i, n := range e.Names {
+		walk(n, e.Vals[i], 1)
+	}
 	ns := g.Nodes(scopeOf(e), 0, 8)
 	g.fixErrors(ns)
 	return ns
